@@ -18,7 +18,7 @@ RULE = ('topology cases as in C06 (probe process at depth 0-2 with 1-4 ports of 
         'named in the initial state; declaration-conflict pairs (_value, _units, _serializer; equal and '
         'different); Composite.initial_state()/default_state() with per-process initial values; non-trivial = '
         '>=2 ports, >=1 absent and >=1 given leaf among the declared nodes; distinct = distinct case spec')
-PLAN = {'quick': {'n': 3000, 'min_cases': 500}, 'thorough': {'n': 100000, 'min_cases': 10000}}
+PLAN = {'quick': {'n': 9000, 'min_cases': 500}, 'thorough': {'n': 100000, 'min_cases': 10000}}
 REQUIRED_ORACLES = ['declared_exists', 'given_value', 'default_value', 'entry_points_agree', 'glob_children',
                     'conflict_raises', 'compatible_accepted', 'initial_state_placement', 'default_state_placement']
 ANCHORS = ['vivarium.core.store:generate_state', 'vivarium.core.store:Store.generate',
